@@ -134,7 +134,8 @@ fn judge_iv(ctx: &Ctx, acc: &mut Acc, name: &str, case: &dyn Fn() -> Case, w: u3
         Ok(Err(e)) => {
             if let Some(x) = s_any {
                 viol(ctx, acc, 
-                    format!("spurious-unsat {name}"),
+                    // the error text separates "declared empty" from "gave up because of an integer overflow"
+                    format!("spurious-unsat {name}{}", if e.contains("Integer overflow") { " (integer overflow reported)" } else { "" }),
                     serde_json::to_value(case()).unwrap(),
                     json!({"observed": format!("Err({e})"), "expected": "Ok: the value has members that satisfy the condition", "satisfying_member": format!("{x:#x}")}),
                 );
